@@ -160,9 +160,9 @@ def c16():
     interesting = [x for x in flat if any(st["op"] in ("reject_next", "flush", "sleep", "get", "clean") for st in x[1])]
     rest = [x for x in flat if x not in interesting] if len(flat) < 20000 else []
     pick = (rnd.sample(interesting, min(len(interesting), limit * 3 // 4)) + rnd.sample(rest, min(len(rest), limit // 4))) if limit else flat
-    bs = behaviours_from(chk, pick, ["default", "short", "tiny", "default"], "every", None)
+    bs = behaviours_from(chk, pick, ["default", "short", "tiny", "tight40", "tight70", "tight100", "tight140", "tight200", "tight300", "tight450"], "every", None)
     bs += [dict(b, id=len(bs) + i + 1) for i, b in enumerate(behaviours_from(chk, fl, ["default"], "every", None))]
-    bs += [dict(b, id=len(bs) + i + 1) for i, b in enumerate(behaviours_from(chk, deep, ["default", "short", "tiny"], "every", None))]
+    bs += [dict(b, id=len(bs) + i + 1) for i, b in enumerate(behaviours_from(chk, deep, ["default", "short", "tiny", "tight40", "tight70", "tight100", "tight140", "tight200", "tight300", "tight450"], "every", None))]
     # concurrent tasks through one manager, scheduled at the ISSUE and the COMPLETION of every storage operation:
     # a reader whose database answer arrives after a write of the same key (cache fill racing with a write)
     export_storage(chk, "MCStorage_fill.cfg")          # split reads in the model: CacheTransparent with in-flight answers
